@@ -11,6 +11,8 @@ with no failing input).  `read(name)` therefore returns the file with such helpe
   * a call is inlined when it stands alone as a statement (`x.helper(a, b)`, helper body without `return`)
     or as `return x.helper(a, b)`, the arguments are plain identifiers / selectors (no side effects),
     and the helper is not recursive; the receiver and the parameters are renamed to the call's expressions;
+  * a helper whose body is a single `return EXPR` is substituted as `(EXPR)` wherever it is called, also inside
+    conditions;
   * everything else is left as it is (the translator then reports the unknown shape, as before).
 
 On an unchanged tree nothing is a candidate and `read` returns the file text unchanged."""
@@ -75,6 +77,27 @@ def _reindent(body, indent):
     return "\n".join(out)
 
 
+def _unwrap_if(text):
+    """`if (COND) {` -> `if COND {` when the parentheses wrap the whole condition (left by an expression inlining)"""
+    out = []
+    for line in text.split("\n"):
+        m = re.match(r"^(\s*(?:\} else )?if )\((.*)\)( \{)$", line)
+        if m:
+            depth, ok = 0, True
+            for ch in m.group(2):
+                if ch == "(":
+                    depth += 1
+                elif ch == ")":
+                    depth -= 1
+                    if depth < 0:
+                        ok = False
+                        break
+            if ok and depth == 0:
+                line = m.group(1) + m.group(2) + m.group(3)
+        out.append(line)
+    return "\n".join(out)
+
+
 _cache = {}
 
 
@@ -102,6 +125,42 @@ def _normalized(repo):
             changed = False
             for name, (hf, hm, ps) in helpers.items():
                 body, rv = hm.group("body"), hm.group("rv")
+                # (a) expression helpers: a body that is a single `return EXPR` is substituted wherever it is called
+                one = re.fullmatch(r"\s*return (?P<e>[^\n]+)\s*", body)
+                if one and hm.group("res").strip() and "," not in hm.group("res"):
+                    recv_e = (r"(?P<recv>%s)\." % SIMPLE) if rv else ""
+                    args_e = r"\s*,\s*".join(r"(%s)" % SIMPLE for _ in ps)
+                    call_e = re.compile(r"(?<![\w.])%s%s\(%s\)" % (recv_e, name, args_e))
+                    did = 0
+                    for f in list(texts):
+                        t = texts[f]
+                        d = re.search(r"^func (?:\(\w+ \*?\w+\) )?%s\(" % name, t, re.M)
+                        pre, post = (t, "") if not d else (t[:d.start()], t[d.start():])
+                        e_end = post.find("\n}\n") + 3 if d else 0
+                        defn, rest = post[:e_end], post[e_end:]
+
+                        def rep_e(m):
+                            mp = {}
+                            if rv:
+                                mp[rv] = m.group("recv")
+                            for k, p_ in enumerate(ps):
+                                mp[p_] = m.group(m.lastindex - len(ps) + 1 + k)
+                            return "(" + _subst(one.group("e"), mp) + ")"
+                        npre, n1 = call_e.subn(rep_e, pre)
+                        nrest, n2 = call_e.subn(rep_e, rest)
+                        did += n1 + n2
+                        texts[f] = _unwrap_if(npre) + defn + _unwrap_if(nrest)
+                    if did:
+                        left = sum(len(re.findall(r"(?<![\w])%s\(" % name, texts[f])) for f in texts) - 1
+                        if left == 0:
+                            t = texts[hf]
+                            d = re.search(r"(?:^//[^\n]*\n)*^func (?:\(\w+ \*?\w+\) )?%s\(" % name, t, re.M)
+                            if d:
+                                e = t.find("\n}\n", d.start())
+                                texts[hf] = t[:d.start()] + t[e + 3:].lstrip("\n")
+                        inlined.append(name + "(expr)")
+                        changed = True
+                    continue
                 has_return = re.search(r"\breturn\b", body) is not None
                 recv = (r"(?P<recv>%s)\." % SIMPLE) if rv else ""
                 args = r"\s*,\s*".join(r"(%s)" % SIMPLE for _ in ps)
